@@ -148,7 +148,7 @@ func (g *gctx) decorateProp(p *gProp) {
 			p.Attrs = append(p.Attrs, fmt.Sprintf("rules.minimum = %d", g.r.Range(0, 100)))
 		}
 		if g.r.Chance(50) {
-			p.Attrs = append(p.Attrs, fmt.Sprintf("rules.maximum = %s", vh.Pick(g.r, []string{"100", "2147483647", "4294967295"})))
+			p.Attrs = append(p.Attrs, fmt.Sprintf("rules.maximum = %s", vh.Pick(g.r, []string{"100", "2147483647", "65535"})))
 		}
 	case "array":
 		if g.r.Chance(50) {
